@@ -5,7 +5,7 @@ CONSTANTS
   DetailNames <- NamesNone
   Mismatches = {}
   Attrs = {}
-  Fixtures = {}
+  Fixtures = {"f_classic", "f_bad"}
   MaxFaults = 2
   MaxSteps = 1
   MaxTotalSteps = 1
